@@ -37,13 +37,17 @@ Spellings == 0..3
 RECURSIVE ExprNorm(_)
 \* expression trees: <<"t">>, <<"c", n>>, <<op, a, b>>; + and * commutative
 Rank(e) == IF e[1] = "t" THEN 0 ELSE IF e[1] = "c" THEN 1 + e[2] ELSE 100
-ExprNorm(e) == IF Len(e) < 3 THEN e
+\* <<"abs", x>> / <<"neg", x>>: a call / a unary minus around a sub-expression
+IsWrap(e) == Len(e) = 2 /\ e[1] \in {"abs", "neg"}
+ExprNorm(e) == IF IsWrap(e) THEN <<e[1], ExprNorm(e[2])>>
+               ELSE IF Len(e) < 3 THEN e
                ELSE LET a == ExprNorm(e[2]) b == ExprNorm(e[3])
                     IN IF e[1] \in {"+", "*"} /\ Rank(b) < Rank(a) THEN <<e[1], b, a>> ELSE <<e[1], a, b>>
 
 \* (an entry's `al` field -- written as a YAML alias of entry al of the same node -- is not part of the meaning)
 EntryMeaning(en) == [k |-> en.k, v |-> en.v, str |-> en.str, sub |-> {[k |-> s.k, v |-> s.v] : s \in {en.sub[i] : i \in 1..Len(en.sub)}}]
 SweepMeaning(sw) == IF ~sw.on THEN sw ELSE [sw EXCEPT !.expr = ExprNorm(sw.expr), !.vorder = FALSE]
+\* (pempty -- how an empty parameters block is written -- is not part of the meaning)
 NodeMeaning(n) == [proc |-> n.proc,
                    params |-> {EntryMeaning(n.ps[i]) : i \in 1..Len(n.ps)},
                    sweep |-> SweepMeaning(n.sweep)]
@@ -76,8 +80,17 @@ CommuteInner == \E i \in 1..Len(cfg) :
                   /\ cfg[i].sweep.on /\ Len(cfg[i].sweep.expr) = 3 /\ Len(cfg[i].sweep.expr[2]) = 3
                   /\ cfg[i].sweep.expr[2][1] \in {"+", "*"} /\ cfg[i].sweep.expr[2][2] # cfg[i].sweep.expr[2][3]
                   /\ SetNode(i, [cfg[i] EXCEPT !.sweep.expr[2] = <<@[1], @[3], @[2]>>]) /\ last' = "CommuteInner"
+\* ... and below a call or a unary minus (any non-arithmetic construct around the chain)
+CommuteUnder == \E i \in 1..Len(cfg) :
+                  /\ cfg[i].sweep.on /\ IsWrap(cfg[i].sweep.expr) /\ Len(cfg[i].sweep.expr[2]) = 3
+                  /\ cfg[i].sweep.expr[2][1] \in {"+", "*"} /\ cfg[i].sweep.expr[2][2] # cfg[i].sweep.expr[2][3]
+                  /\ SetNode(i, [cfg[i] EXCEPT !.sweep.expr[2] = <<@[1], @[3], @[2]>>]) /\ last' = "CommuteUnder"
 PermuteVars == \E i \in 1..Len(cfg) : cfg[i].sweep.on /\ cfg[i].sweep.ctx2
                   /\ SetNode(i, [cfg[i] EXCEPT !.sweep.vorder = ~@]) /\ last' = "PermuteVars"
+\* a node without parameters may leave the block out, write `parameters:` (YAML null) or `parameters: {}`
+EmptyParams == \E i \in 1..Len(cfg) : \E e \in 0..2 :
+                  /\ cfg[i].ps = <<>> /\ e # cfg[i].pempty
+                  /\ SetNode(i, [cfg[i] EXCEPT !.pempty = e]) /\ last' = "EmptyParams"
 Alias == \E i, j \in 1..Len(cfg) : /\ i < j /\ ~Involved(i) /\ ~Involved(j)
                                     /\ NodeMeaning(cfg[i]) = NodeMeaning(cfg[j])
                                     /\ cfg' = [cfg EXCEPT ![j].alias = i] /\ last' = "Alias"
@@ -87,7 +100,7 @@ AliasSub == \E i \in 1..Len(cfg) : \E a, b \in 1..Len(cfg[i].ps) :
                /\ a < b /\ ~Involved(i) /\ cfg[i].ps[a].sub # <<>> /\ cfg[i].ps[b].sub # <<>>
                /\ SubSet(cfg[i].ps[a]) = SubSet(cfg[i].ps[b])
                /\ cfg' = [cfg EXCEPT ![i].ps[b].al = a] /\ last' = "AliasSub"
-Cosmetic == PermuteKeys \/ PermuteSubKeys \/ Respell \/ Requote \/ Reflow \/ CommuteExpr \/ CommuteInner \/ PermuteVars \/ Alias \/ AliasSub
+Cosmetic == PermuteKeys \/ PermuteSubKeys \/ Respell \/ Requote \/ Reflow \/ CommuteExpr \/ CommuteInner \/ CommuteUnder \/ PermuteVars \/ Alias \/ AliasSub \/ EmptyParams
 
 (******************************* semantic actions *************************)
 OtherProc(p) == IF p = "FloatMultiplyOperation" THEN "VNestedOperation" ELSE "FloatMultiplyOperation"
@@ -134,7 +147,7 @@ Next == /\ steps < MaxSteps /\ steps' = steps + 1 /\ base' = cfg
         /\ (Cosmetic \/ Semantic)
 Spec == Init /\ [][Next]_vars
 
-CosmeticNames == {"PermuteKeys", "PermuteSubKeys", "Respell", "Requote", "Reflow", "CommuteExpr", "CommuteInner", "PermuteVars", "Alias", "AliasSub"}
+CosmeticNames == {"PermuteKeys", "PermuteSubKeys", "Respell", "Requote", "Reflow", "CommuteExpr", "CommuteInner", "CommuteUnder", "PermuteVars", "Alias", "AliasSub", "EmptyParams"}
 CosmeticKeepsMeaning == (last \in CosmeticNames) => Meaning(cfg) = Meaning(base)
 SemanticChangesMeaning == (last # "" /\ last \notin CosmeticNames) => Meaning(cfg) # Meaning(base)
 
